@@ -1218,20 +1218,60 @@ func ruleDirKind(c *Ctx, id string) {
 			}
 		}
 		// directly, or through a predicate helper whose result is tested (if st := check(ip, ...); st != OK { return })
-		g := guardedByS(fn, at, subj, mk, 0)
+		fmk := func(field string, v ssa.Value) func(Cond) (bool, bool) {
+			return func(cd Cond) (bool, bool) {
+				k, isk := constInt(cd.Y)
+				if field != "Kind" || !isk || k != dirK || stripConv(cd.X) != stripConv(v) {
+					return false, false
+				}
+				switch cd.Op {
+				case token.EQL:
+					return true, true
+				case token.NEQ:
+					return true, false
+				}
+				return false, false
+			}
+		}
+		g := guardedByS(fn, at, subj, mk, 0, fmk)
 		if g {
 			return true, "Kind == NF3DIR dominates in " + FuncName(fn)
 		}
 		// a freshly allocated directory: AllocInode(NF3DIR) / the kind parameter compared
 		pm, isP := sv.(*ssa.Parameter)
-		if fv, isF := sv.(*ssa.FreeVar); isF && fn.Parent() != nil && depth < 5 {
+		var fvv *ssa.FreeVar
+		if fv, isF := sv.(*ssa.FreeVar); isF {
+			fvv = fv
+		} else if u, isU := sv.(*ssa.UnOp); isU && u.Op == token.MUL {
+			fvv, _ = u.X.(*ssa.FreeVar) // a variable captured by reference
+		}
+		if fv := fvv; fv != nil && fn.Parent() != nil && depth < 5 {
 			// closure: the captured variable as bound at the MakeClosure
 			for _, b := range fn.Parent().Blocks {
 				for _, in := range b.Instrs {
 					if mc, ok := in.(*ssa.MakeClosure); ok && mc.Fn == ssa.Value(fn) {
 						for i, q := range fn.FreeVars {
 							if q == fv && i < len(mc.Bindings) {
-								return guarded(fn.Parent(), mc.Block(), mc.Bindings[i], depth+1)
+								bound := mc.Bindings[i]
+								if al, ok := bound.(*ssa.Alloc); ok {
+									if st := singleStore(al); st != nil {
+										bound = st
+									}
+								}
+								// the closure runs where it is called, not where it is made
+								at := mc.Block()
+								for _, r := range refs(mc) {
+									if cl, ok := r.(*ssa.Call); ok && cl.Call.Value == ssa.Value(mc) {
+										if ok2, why := guarded(fn.Parent(), cl.Block(), bound, depth+1); !ok2 {
+											return false, why
+										}
+										at = nil
+									}
+								}
+								if at == nil {
+									return true, "every call of the closure is on a checked directory"
+								}
+								return guarded(fn.Parent(), at, bound, depth+1)
 							}
 						}
 					}
